@@ -1,11 +1,13 @@
 use rusty_common::{AtPos, Position};
-use rusty_parser::{AsBareName, BareName, Expression, ExpressionType, Expressions, Name};
+use rusty_parser::{
+    AsBareName, BareName, Expression, ExpressionType, Expressions, Name, TypeQualifier,
+};
 
 use crate::converter::common::{ConvertibleIn, ExprContext, ExprContextPos};
 use crate::converter::expr_rules::qualify_name::*;
 use crate::core::{
-    IntoQualified, IntoTypeQualifier, LintError, LintErrorPos, LintResult, LinterContext,
-    VariableInfo,
+    CanCastTo, IntoQualified, IntoTypeQualifier, LintError, LintErrorPos, LintResult,
+    LinterContext, VariableInfo,
 };
 
 pub fn convert(
@@ -113,6 +115,12 @@ impl FuncResolve for ExistingArrayWithParenthesis {
     ) -> Result<Expression, LintErrorPos> {
         // convert args
         let converted_args = args.convert_in(ctx, extra.element)?;
+        // the indices are converted to integers when the element is accessed
+        for arg in &converted_args {
+            if !arg.can_cast_to(&TypeQualifier::PercentInteger) {
+                return Err(LintError::TypeMismatch.at(arg));
+            }
+        }
         // convert name
         let VariableInfo {
             expression_type, ..
